@@ -12,6 +12,14 @@ CONSTANTS
   MaxRetry = 0
   MaxDirect = 0
   ConnCap = 1
+  FirstMsgBuffered = TRUE
+  MaxNewPeer = 0
+  BootArmEval = TRUE
+  BootArmQ = TRUE
+  BootArmDone = TRUE
+  BootArmTimer = TRUE
+  RoundAlwaysSignals = TRUE
+  MaxBoot = 0
   BatchCap = 1
   DiscCap = 1
   SendCap = 1
